@@ -15,7 +15,7 @@ CLAIMED = {
         "a sequence of whole calls, i.e. a history of the C10 LTS).  Tie on every run: 6 sets of 16 workloads mixing ptrace, namespace and "
         "container runs (3 environments, concurrent calls on one of them, cancelled and signalled programs, process trees) run one by one "
         "and all at once in one host process with 8 background goroutines creating inheritable descriptors under the RLock protocol: "
-        "verdict, exit value and the descriptor table reported by each program must be identical, and nothing may hang.",
+        "verdict, exit value and the descriptor table reported by each program must be identical, and nothing may hang.  Also: three users of ONE environment opening and reading back their own file with Pings in between; a freshly written executable run through its descriptor next to a launch that overlapped its writing.",
    note="Partial: the tie samples schedules, the theorems quantify over all interleavings of the model's atomic steps; that these steps are "
         "atomic where the code is (each library descriptor born close-on-exec, clone inside the write-locked section) is the trusted link, "
         "exercised by the background goroutines.  The model has no executable comparison with the code beyond these runs (level: theorem "
@@ -34,7 +34,7 @@ CLAIMED = {
         "histories on the REAL v1 hierarchy of this machine and on a real cgroup2 mount in a private mount namespace (Existing flags, "
         "directories per controller, group of every thread of moved multi-threaded processes) replayed in Coq; 40 rounds x 16 concurrent "
         "creators through handle.New and the package New on both hierarchies; limits read back from the kernel's files; CPU / memory readings "
-        "of a child that burns a known amount; 150 synthetic statistics files against the reader models in Coq.",
+        "of a child that burns a known amount; 150 synthetic statistics files against the reader models in Coq.  Also: cpuset among the limits, limits read again after another handle was made for the group, reader values compared with the number in the file.",
    note="Partial: rmdir of a group that still has sub-groups or processes fails in the kernel and is not modelled (the histories only "
         "destroy empty leaf groups); the v2 controller files do not exist on this machine (controllers are bound to v1), so the v2 readers are "
         "tied on synthetic directories through the verif hook; tokenisation of file contents is done by the driver.  Trusted: Coq kernel + vm_compute.",
@@ -49,7 +49,7 @@ CLAIMED = {
         "word - bit-level lemma on BIND|RDONLY), C05_readonly_partial (and everywhere below when the source holds no mounts), "
         "C05_readonly_refuted (known finding), C05_writable_only_declared, C05_builder_flags.  Tie on every run: 40 generated mount "
         "tables x {namespace runner, container, container with InitCommand}; /proc/<pid>/mountinfo of the sandboxed process compared in "
-        "Coq with build_table; a probe inside lists /, looks for the old root, writes into every mount and into /, reads a masked path.",
+        "Coq with build_table; a probe inside lists /, looks for the old root, writes into every mount and into /, reads a masked path.  The probe also reports inherited directory descriptors.",
    note="Partial: mount semantics are the kernel model, validated by mountinfo and the probe on every run; masked paths are checked "
         "through the probe only; the mkdir / mknod of mount points is not modelled (a wrong one makes the mount fail, which the runs "
         "report).  Trusted: Coq kernel + vm_compute.",
@@ -66,7 +66,7 @@ CLAIMED = {
         "requested) and C04_no_step_lost (each step exactly once when requested, never otherwise, exec last).  Tie on every run: the state "
         "probe launched by pkg/forkexec under ALL 512 combinations of the nine interacting options crossed with random draws of the others; "
         "the harness is parent and tracer; self-report compared in Coq with state_at_exec and by an independent oracle with the property; "
-        "refused id maps / denied setgroups must fail without running the target.",
+        "refused id maps / denied setgroups must fail without running the target.  Also a launcher without CAP_SETPCAP (the secure bits cannot be locked: the launch has to be refused).",
    note="Partial: the kernel's credential rules are the model's assumptions, validated against the probe on every run; namespace creation "
         "by clone flags is checked by the oracle only; descriptor, mount and rlimit steps are C06 / C05 / C08.  Trusted: Coq kernel + vm_compute.",
    technique="Coq proof by exhaustive case analysis over all option combinations with symbolic identities + exhaustive differential launches of a state probe",
@@ -82,7 +82,7 @@ CLAIMED = {
         "issuing marker syscalls with decisions by marker name, 160 kill-verdict runs under 16-way CPU contention, runs under a killing "
         "filter (kill issued by the main thread / a second thread, each with a control run), a later run whose main process gets the pid of an "
         "earlier run's live descendant (private pid namespace, small pid_max); the program's own record of return values, the directories that exist afterwards, the verdict, and the tracer's own "
-        "event log (waits and ptrace requests, verif hook) replayed in Coq against `handle` for every run.",
+        "event log (waits and ptrace requests, verif hook) replayed in Coq against `handle` for every run.  Also calls with two pathnames (rename, renameat2, linkat) under all nine pairs of decisions.",
    note="Partial: the kernel's ptrace rules (a task in seccomp-stop does nothing until restarted; orig_rax = -1 skips; SIGKILL of a stopped task "
         "discards its pending syscall; auto-attach with inherited options) are the model's assumptions, exercised on every run and not proved; "
         "ESRCH races are C15's.  Trusted: Coq kernel + vm_compute.",
@@ -101,7 +101,7 @@ CLAIMED = {
         "C02_dirfd_upper_half_ignored.  Tie on every run: 10 forests on disk x 260 really traced path syscalls with exact register values "
         "(all 26 calls of this architecture, dirfd sign- / zero-extended / garbage upper half, descriptor-relative, after chdir / fchdir, "
         "/proc/self aliases, 43-link chains, loops, dangling links); three-way comparison in Coq of the handler's question, the kernel's own "
-        "resolution reported by the program (O_PATH + /proc/self/fd) and the model; classes against class_of (handle_table ..).",
+        "resolution reported by the program (O_PATH + /proc/self/fd) and the model; classes against class_of (handle_table ..).  Path strings also lie across page boundaries and in PROT_WRITE-only pages; at-flags that do not change the designated object accompany non-empty names.",
    note="Partial: of the /proc magic links, self / thread-self and the root links are in the forest model, cwd / fd links are compared "
         "code-against-kernel only; the rows stat64 / lstat64 / fstatat / "
         "fstatat64 of Handle cannot occur on x86-64 and are covered by the table theorem only; reading the pathname from tracee memory is C15's "
@@ -119,7 +119,7 @@ CLAIMED = {
         "container (000 directories, dangling links, FIFOs, sockets, hard links, hostile names, 20000 entries, chains deeper than PATH_MAX) "
         "viewed from the host through /proc/<init>/root and by a later program, compared with populate / reset in Coq; ~350 DupToMemfd "
         "cases (10 reader kinds x sizes around page / buffer boundaries, scripted chunkings, failing readers) with content, position, seals "
-        "and every modification attempt by a holder and by the program executed from the file, scripted ones compared in Coq byte by byte.",
+        "and every modification attempt by a holder and by the program executed from the file, scripted ones compared in Coq byte by byte.  Readers whose beginning was already consumed (files, byte readers, section readers); deep chains under a small descriptor limit of the init.",
    note="Partial: the kernel rules (unlinkat semantics for a caller with CAP_DAC_OVERRIDE and CAP_FOWNER, memfd seals) are the model's "
         "assumptions, exercised on every run and not proved; os.RemoveAll's own recursion is represented by `remove_entry`.  Trusted: Coq kernel + vm_compute.",
    technique="Coq proof by induction over trees, creation histories and reader protocols + differential runs of Reset and DupToMemfd against the model",
@@ -152,7 +152,7 @@ CLAIMED = {
         "cancelled runs of 7-task trees ignoring all signals (own sessions in the pid-namespace runners) in all three runners, every Execve "
         "failure class, Open batches, launches failing at clone and at exec, Build/Destroy, Build failing after the container started — with the "
         "descriptors, goroutines and children of the host, the descriptors and children of the container init and every process carrying the "
-        "history's token counted before and after; a per-operation watchdog.",
+        "history's token counted before and after; a per-operation watchdog.  Failing container runs carry descriptors; some runs use a context that is never cancelled.",
    note="Partial: the counts of the real system are measured, not proved; the kernel rules PR1, PR3, PR5, PT2 carry the process-tree theorems.  "
         "One defect of the pinned tree (Build leaking the started container) was repaired by a fix: commit.",
    technique="Coq proof by induction over program action lists (process-tree model) + residue measurement after real histories",
@@ -166,7 +166,7 @@ CLAIMED = {
         "(idle, program running with sync before / after exec, inside the sync callback, after a call that left descendants, during file "
         "operations, while the init runs its InitCommand — where only the parent-death signal helps —, a traced process tree) and is SIGKILLed "
         "there with 0..200 ms delay; the programs are trees of 7 tasks ignoring every signal; within 3 s neither the init nor any process "
-        "carrying the run's token may exist.",
+        "carrying the run's token may exist.  The controller is also killed while its tracer stands at each step of the launch and of the run (debug steps), and idle after a traced run whose descendants left the process group.",
    note="Partial: the parent-death signal (PR4), 'death of a pid-namespace init kills the namespace' (PR3), PTRACE_O_EXITKILL (PT4), option "
         "inheritance by auto-attached children (PT2) and EOF on the socket (SK4) are kernel rules, exercised by the crash-point runs, not proved.  "
         "States in which the init is blocked outside a select (InitCommand, waiting for a killed child) are covered by the runs only.",
@@ -200,7 +200,7 @@ CLAIMED = {
         "defects of the pinned tree are theorems about the unfixed variant and were repaired by fix: commits; the oversize request is a known "
         "finding.  Tie on every run: 40 (thorough 400) random histories of up to 30 calls on a real environment with every failure class; the "
         "wire-level logs of BOTH endpoints (verif-tagged hooks) are replayed in Coq against host_steps / cont_steps themselves; every answer "
-        "is checked against its call's class; Ping and Execve(/bin/true) after every history; a per-call watchdog.",
+        "is checked against its call's class; Ping and Execve(/bin/true) after every history; a per-call watchdog.  Every eighth environment has a file bound below each tmpfs mount, so that Reset fails on two mounts and has to say so exactly once.",
    note="Trusted: Coq kernel + vm_compute; FIFO delivery (SK1) and the capacity-1 channels abstracted to one queue per direction; Go's select "
         "as nondeterministic choice; the injective state code (Base/Code.v, proved prefix free).  Open/Delete/Symlink/Reset/Ping are one "
         "'simple call' kind in the LTS (their payloads are C14's subject).",
@@ -215,7 +215,7 @@ CLAIMED = {
         "send is rejected the receiver decodes exactly the sent values, in order), C19_oversize_rejected_by_sender, C19_oversize_poisons_stream.  "
         "Tie on every run: Go's encoders and the library's parser on 150 random attachments (bit-exact bytes), 120 raw histories on a real socket "
         "pair (payload 0..65536 vs buffers 1..70000, 0..253 descriptors, credentials, refused sends: identities in order, close-on-exec, Ucred, "
-        "descriptor count), 80 typed histories through the protocol's gob-framed socket (first use of each type, oversize, refused sends).",
+        "descriptor count), 80 typed histories through the protocol's gob-framed socket (first use of each type, oversize, refused sends).  A message that never arrives is reported with its history.",
    note="Three behaviours are listed as known findings (empty payloads at the raw layer; a rejected first-use send poisons the gob stream).  "
         "Trusted: Coq kernel + vm_compute; kernel rules SK1-SK3; encoding/gob abstracted to 'the descriptor of a type travels with its first "
         "value' (validated by the framed histories); SCM_MAX_FD = 253.",
@@ -230,7 +230,7 @@ CLAIMED = {
         "already gone.  The two defects of the pinned tree are kept as a theorem about the unfixed clen and were repaired by two fix: commits.  Tie "
         "on every run: GetString on the harness's own memory with crafted protections / NUL placements / offsets around page boundaries vs the "
         "model in Coq; ptraceHandle.handle with ESRCH answers (C09 run); 21 hostile traced scenarios with every syscall trapping, the three "
-        "kill-while-stopped races repeated 60 (thorough 600) times; elapsed time per run.",
+        "kill-while-stopped races repeated 60 (thorough 600) times; elapsed time per run.  openat2 with sizes other than 24; a dying runner process is attributed to the scenario that caused it.",
    note="Partial: kernel-level interleavings (which task is killed when) are sampled by the repeated race scenarios, the theorem quantifies over "
         "the request outcomes {ok, ESRCH}.  Trusted: Coq kernel + vm_compute; ptrace rule PT3 (any request may answer ESRCH once the tracee was "
         "killed); process_vm_readv transfers up to the first unreadable page (validated by the crafted-memory runs).",
@@ -245,7 +245,7 @@ CLAIMED = {
         "variant (C06_pipe_clobbers_exec_on_pinned) and was repaired by two fix: commits.  Tie on every run: ~1500 real launches (exhaustive "
         "lists of length <= 3 over {-1,0,1,2,12,13} x exec x socketpair placement x fork/vfork, random lists up to length 24, malformed lists) "
         "with the started probe reporting (dev, inode, flags) of every open descriptor, compared with the model evaluated in Coq; caller's "
-        "Runner before/after; second Start; launcher leaks; 2400 concurrent starts.",
+        "Runner before/after; second Start; launcher leaks; 2400 concurrent starts.  Programs started inside a container with lists of 0..11 entries and an exec descriptor: exactly the list, nothing of the init.",
    note="Trusted: Coq kernel + vm_compute; kernel rules FD1 (dup3 replaces the target and sets close-on-exec as asked), FD2 (exec closes "
         "exactly the close-on-exec descriptors), FD3; hypothesis of the theorem: every descriptor of the launcher outside the slot range is "
         "close-on-exec at fork time (Go opens everything O_CLOEXEC; the container marks received and inherited descriptors; checked per run "
@@ -306,7 +306,7 @@ CLAIMED = {
         "Runner Error always carries an explanation (three theorems).  Tie on every run: all 65536 low wait-status words and random words "
         "with event bits through the exported container conversion, ptraceHandle.handle on generated (state, pid, word) triples, checkUsage, "
         "and real runs of exit(n) / every default-fatal signal / synchronous faults / external SIGKILL in the ptrace, namespace and container "
-        "(sync before and after exec) runners, each compared with the model evaluated in Coq and with the README table.",
+        "(sync before and after exec) runners, each compared with the model evaluated in Coq and with the README table.  Also a main task that stops and is continued by its child, and deaths with a core file written (core flag in the status word).",
    note="Trusted: Coq kernel + vm_compute (finite sweeps over 256 exit codes / 127 signals are lifted with forallb_forall, bounds in the "
         "statements); kernel rules: the wait-status encoding, signal-delivery stops of traced tasks (PT5), a pid-namespace init ignores "
         "self-sent default-action signals (so the namespace runner is exercised with faults and external SIGKILL only). The exit value of "
